@@ -13,6 +13,9 @@ import PybropsModel.Lemmas.CoancestrySumm
 import PybropsModel.Lemmas.CoancestryMinInb
 import PybropsModel.Lemmas.CoancestryReal
 import PybropsModel.Lemmas.CoancestryPerm
+import PybropsModel.Lemmas.CoancestryAxis
+import PybropsModel.Lemmas.CoancestryJitter
+import PybropsModel.Lemmas.CoancestryRound
 set_option autoImplicit false
 set_option linter.unusedSectionVars false
 
@@ -471,12 +474,20 @@ theorem gw_select_commutes (is : List Nat) (lab : Labels) (ploidy : Nat) (w p : 
   rw [gw_take]; rfl
 
 /-- **Labels are carried.**  Whatever the estimator returns, the object holds exactly the source's
-    taxa names and taxa groups. -/
+    taxa names, taxa groups and — for a grouped source — its group metadata
+    (`taxa_grp_name/stix/spix/len`). -/
 theorem labels_carried (lab : Labels) (r : Except Err (List (List α))) (c : CMat α)
     (h : fromGmat lab r = .ok c) : c.lab = lab ∧ r = .ok c.mat := by
   cases r with
   | error e => cases h
   | ok G => cases h; exact ⟨rfl, rfl⟩
+
+/-- the three label components separately, for a grouped source -/
+theorem group_metadata_carried (lab : Labels) (r : Except Err (List (List α))) (c : CMat α)
+    (h : fromGmat lab r = .ok c) :
+    c.lab.taxa = lab.taxa ∧ c.lab.taxaGrp = lab.taxaGrp ∧ c.lab.grpMeta = lab.grpMeta := by
+  obtain ⟨hl, _⟩ := labels_carried lab r c h
+  rw [hl]; exact ⟨rfl, rfl, rfl⟩
 
 end select
 
@@ -641,6 +652,242 @@ theorem min_inbreeding_attained_partial (n : Nat) (G H : List (List α)) (hH : R
   rw [sumAll_eq H n n hH]
   exact h2
 
+/-! ### the model's own inverse: Gauss–Jordan is sound, so for the model nothing is assumed -/
+
+/-- **Soundness of the reference inversion** (`inverse()` of the model, also the oracle the Spec compares
+    `numpy.linalg.inv` with): whatever it returns is an `n×n` two-sided inverse. -/
+theorem inverse_sound (A B : List (List α)) (n : Nat) (hA : Rect n n A) (h : inverse A = some B) :
+    Rect n n B ∧ IsRightInverse n A B ∧
+      ∀ i < n, ∀ j < n, ∑ k ∈ range n, entry B i k * entry A k j = if i = j then 1 else 0 := by
+  obtain ⟨hB, hr⟩ := inverse_isRightInverse A B n hA h
+  exact ⟨hB, hr, (inverse_left A B n hA h).2⟩
+
+/-- quadratic form of the kinship view -/
+theorem quad_kinship (G : List (List α)) (n : Nat) (hG : Rect n n G) (kin : Bool) (v : Nat → α) :
+    quad n (asFormat kin G) v = fmt kin (quad n G v) := by
+  cases kin with
+  | false => rfl
+  | true =>
+    unfold quad
+    simp only [fmt, if_true, Finset.mul_sum]
+    apply Finset.sum_congr rfl; intro i hi
+    apply Finset.sum_congr rfl; intro j hj
+    show v i * entry (mapMat (fun x => half * x) G) i j * v j = _
+    rw [entry_mapMat _ G n n i j hG (Finset.mem_range.mp hi) (Finset.mem_range.mp hj)]
+    ring
+
+/-- **Minimum attainable inbreeding is the minimum — full for the model.**  For a symmetric positive
+    semidefinite `n×n` matrix (`n ≥ 1`), in either output format: whenever `min_inbreeding(format)` returns `x`
+    (i.e. the matrix is nonsingular), `x ≤ cᵀ M c` for every contribution vector with `Σc = 1`, where `M` is
+    the matrix in that format, and some such `c` attains it. -/
+theorem min_inbreeding_is_min (kin : Bool) (n : Nat) (hn : 0 < n) (G : List (List α)) (hG : Rect n n G)
+    (hsym : ∀ i < n, ∀ j < n, entry G i j = entry G j i)
+    (hpsd : ∀ v : Nat → α, 0 ≤ quad n G v) (x : α) (hx : minInbreeding kin G = some x) :
+    (∀ c : Nat → α, ∑ i ∈ range n, c i = 1 → x ≤ quad n (asFormat kin G) c) ∧
+      ∃ c : Nat → α, ∑ i ∈ range n, c i = 1 ∧ quad n (asFormat kin G) c = x := by
+  unfold minInbreeding at hx
+  cases hinv : inverse G with
+  | none => rw [hinv] at hx; simp at hx
+  | some H =>
+    rw [hinv] at hx
+    simp only [Option.map_some, Option.some.injEq] at hx
+    obtain ⟨hH, hr, _⟩ := inverse_sound G H n hG hinv
+    have hhalf : (0 : α) ≤ half := by unfold half; positivity
+    constructor
+    · intro c hc
+      obtain ⟨_, hle⟩ := min_inbreeding_is_min_partial n G H hH hsym hpsd hr c hc
+      rw [quad_kinship G n hG kin c, ← hx]
+      cases kin with
+      | false => exact hle
+      | true => simp only [fmt, if_true]; exact mul_le_mul_of_nonneg_left hle hhalf
+    · by_cases hs : sumAll H = 0
+      · exfalso
+        let c0 : Nat → α := fun i => if i = 0 then 1 else 0
+        have hc0 : ∑ i ∈ range n, c0 i = 1 := by
+          simp [c0, Finset.sum_ite_eq', hn]
+        exact absurd hs (min_inbreeding_is_min_partial n G H hH hsym hpsd hr c0 hc0).1.ne'
+      · obtain ⟨c, hc1, hc2⟩ := min_inbreeding_attained_partial n G H hH hr hs
+        refine ⟨c, hc1, ?_⟩
+        rw [quad_kinship G n hG kin c, hc2, ← hx]
+
+/-- instance for the molecular matrix of any genotype matrix: no hypothesis beyond shape is left -/
+theorem molecular_min_inbreeding_is_min (kin : Bool) (ploidy n m : Nat) (hn : 0 < n) (X G : List (List α))
+    (hX : Rect n m X) (h : molecular ploidy m X = .ok G) (x : α) (hx : minInbreeding kin G = some x) :
+    (∀ c : Nat → α, ∑ i ∈ range n, c i = 1 → x ≤ quad n (asFormat kin G) c) ∧
+      ∃ c : Nat → α, ∑ i ∈ range n, c i = 1 ∧ quad n (asFormat kin G) c = x := by
+  have hG : Rect n n G := by
+    obtain ⟨hm, hpl⟩ := molecular_ok_ploidy ploidy m X G h
+    rcases hpl with rfl | rfl
+    · obtain ⟨G', hG', hR, _⟩ := molecular_one_entry n m X hX hm
+      rw [hG'] at h; cases h; exact hR
+    · obtain ⟨G', hG', hR, _⟩ := molecular_two_entry n m X hX hm
+      rw [hG'] at h; cases h; exact hR
+  exact min_inbreeding_is_min kin n hn G hG (molecular_symmetric ploidy n m X G hX h)
+    (molecular_psd ploidy n m X G hX h) x hx
+
+/-! ### per-axis summaries (`axis = 1`: one value per row, `axis = 0`: one value per column) -/
+
+theorem max_rows_spec (G : List (List α)) (n m : Nat) (hG : Rect n m G) (l : List α)
+    (h : maxRows G = some l) :
+    l.length = n ∧ ∀ i < n, (∃ j < m, entry G i j = l.getD i 0) ∧ ∀ j < m, entry G i j ≤ l.getD i 0 := by
+  obtain ⟨hl, hi⟩ := mapM_option_some _ G l h
+  refine ⟨by rw [hl, hG.1], ?_⟩
+  intro i hin
+  have hiG : i < G.length := hG.1 ▸ hin
+  have hil : i < l.length := hl ▸ hiG
+  obtain ⟨h1, h2⟩ := maxL_spec _ _ (hi i hiG hil)
+  rw [← getD_eq_getElem' G i hiG [], ← getD_eq_getElem' l i hil 0] at h1 h2
+  refine ⟨(mem_row_iff G n m i hG hin _).mp h1, ?_⟩
+  intro j hj
+  exact h2 _ ((mem_row_iff G n m i hG hin _).mpr ⟨j, hj, rfl⟩)
+
+theorem min_rows_spec (G : List (List α)) (n m : Nat) (hG : Rect n m G) (l : List α)
+    (h : minRows G = some l) :
+    l.length = n ∧ ∀ i < n, (∃ j < m, entry G i j = l.getD i 0) ∧ ∀ j < m, l.getD i 0 ≤ entry G i j := by
+  obtain ⟨hl, hi⟩ := mapM_option_some _ G l h
+  refine ⟨by rw [hl, hG.1], ?_⟩
+  intro i hin
+  have hiG : i < G.length := hG.1 ▸ hin
+  have hil : i < l.length := hl ▸ hiG
+  obtain ⟨h1, h2⟩ := minL_spec _ _ (hi i hiG hil)
+  rw [← getD_eq_getElem' G i hiG [], ← getD_eq_getElem' l i hil 0] at h1 h2
+  refine ⟨(mem_row_iff G n m i hG hin _).mp h1, ?_⟩
+  intro j hj
+  exact h2 _ ((mem_row_iff G n m i hG hin _).mpr ⟨j, hj, rfl⟩)
+
+theorem max_cols_spec (G : List (List α)) (n : Nat) (hG : Rect n n G) (l : List α)
+    (h : maxCols G = some l) :
+    l.length = n ∧ ∀ k < n, (∃ i < n, entry G i k = l.getD k 0) ∧ ∀ i < n, entry G i k ≤ l.getD k 0 := by
+  obtain ⟨hl, hi⟩ := mapM_option_some _ (cols G) l h
+  have hc : (cols G).length = n := by simp [cols, hG.1]
+  refine ⟨by rw [hl, hc], ?_⟩
+  intro k hk
+  have hkc : k < (cols G).length := hc ▸ hk
+  have hkl : k < l.length := hl ▸ hkc
+  have hcol : (cols G)[k] = G.map (fun r => r.getD k 0) := by simp [cols]
+  obtain ⟨h1, h2⟩ := maxL_spec _ _ (hi k hkc hkl)
+  rw [hcol, ← getD_eq_getElem' l k hkl 0] at h1 h2
+  refine ⟨(mem_col_iff G n n k hG _).mp h1, ?_⟩
+  intro i hin
+  exact h2 _ ((mem_col_iff G n n k hG _).mpr ⟨i, hin, rfl⟩)
+
+theorem min_cols_spec (G : List (List α)) (n : Nat) (hG : Rect n n G) (l : List α)
+    (h : minCols G = some l) :
+    l.length = n ∧ ∀ k < n, (∃ i < n, entry G i k = l.getD k 0) ∧ ∀ i < n, l.getD k 0 ≤ entry G i k := by
+  obtain ⟨hl, hi⟩ := mapM_option_some _ (cols G) l h
+  have hc : (cols G).length = n := by simp [cols, hG.1]
+  refine ⟨by rw [hl, hc], ?_⟩
+  intro k hk
+  have hkc : k < (cols G).length := hc ▸ hk
+  have hkl : k < l.length := hl ▸ hkc
+  have hcol : (cols G)[k] = G.map (fun r => r.getD k 0) := by simp [cols]
+  obtain ⟨h1, h2⟩ := minL_spec _ _ (hi k hkc hkl)
+  rw [hcol, ← getD_eq_getElem' l k hkl 0] at h1 h2
+  refine ⟨(mem_col_iff G n n k hG _).mp h1, ?_⟩
+  intro i hin
+  exact h2 _ ((mem_col_iff G n n k hG _).mpr ⟨i, hin, rfl⟩)
+
+/-- `mean(axis=1)` is the row sum over the row length, `mean(axis=0)` the column sum over `n` -/
+theorem mean_axis_def (G : List (List α)) (n : Nat) (hG : Rect n n G) :
+    ((meanRows G).length = n ∧ ∀ i < n, (meanRows G).getD i 0 = (∑ j ∈ range n, entry G i j) / (n : α)) ∧
+    ((meanCols G).length = n ∧ ∀ k < n, (meanCols G).getD k 0 = (∑ i ∈ range n, entry G i k) / (n : α)) := by
+  constructor
+  · refine ⟨by simp [meanRows, hG.1], ?_⟩
+    intro i hi
+    have hiG : i < G.length := hG.1 ▸ hi
+    unfold meanRows
+    rw [getD_map' _ G i 0 [] hiG, npsum_eq_sum, list_sum_eq_range _ n (hG.row hi), hG.row hi]
+    rfl
+  · refine ⟨by simp [meanCols, colSums, hG.1], ?_⟩
+    intro k hk
+    unfold meanCols
+    rw [hG.1, getD_map' _ (colSums n G) k 0 0 (by simpa [colSums] using hk), getD_colSums n G n k hG hk]
+
+/-- per-axis summaries in kinship format: halving the coancestry answer (what the code does) equals
+    evaluating the summary on the kinship matrix -/
+theorem axis_kinship_format (G : List (List α)) :
+    maxRows (asFormat true G) = (maxRows G).map (List.map (fmt true)) ∧
+    minRows (asFormat true G) = (minRows G).map (List.map (fmt true)) ∧
+    maxCols (asFormat true G) = (maxCols G).map (List.map (fmt true)) ∧
+    minCols (asFormat true G) = (minCols G).map (List.map (fmt true)) ∧
+    meanRows (asFormat true G) = (meanRows G).map (fmt true) := by
+  have hfmt : (fmt true : α → α) = fun x => half * x := by funext x; simp [fmt]
+  rw [hfmt]
+  refine ⟨?_, ?_, ?_, ?_, ?_⟩
+  · exact mapM_map_option maxL _ _ (fun r => maxL_map _ half_strictMono r) G
+  · exact mapM_map_option minL _ _ (fun r => minL_map _ half_strictMono r) G
+  · show (cols (mapMat (fun x => half * x) G)).mapM maxL = _
+    rw [cols_mapMat_half]
+    exact mapM_map_option maxL _ _ (fun r => maxL_map _ half_strictMono r) (cols G)
+  · show (cols (mapMat (fun x => half * x) G)).mapM minL = _
+    rw [cols_mapMat_half]
+    exact mapM_map_option minL _ _ (fun r => minL_map _ half_strictMono r) (cols G)
+  · show meanRows (mapMat (fun x => half * x) G) = _
+    unfold meanRows mapMat
+    rw [List.map_map, List.map_map]
+    apply List.map_congr_left
+    intro r _
+    simp only [Function.comp, List.length_map]
+    rw [npsum_map_half]
+    ring
+
+/-! ### apply_jitter: the draws and the eigen-solver test are oracle inputs -/
+
+/-- **apply_jitter.**  For a symmetric `n×n` matrix with non-negative quadratic form (every relationship
+    matrix above), whatever the eigen-solver test `isPsd` answers and whatever vectors of length `n` with
+    entries in `[lo, hi]`, `0 ≤ lo`, the generator delivers: the matrix left in the object
+    * differs from the input on the diagonal only, by `0` everywhere or by one of the drawn vectors
+      (so by amounts within `[lo, hi]`),
+    * is still symmetric and still has a non-negative quadratic form (Gram + non-negative diagonal),
+    * and the reported flag is exactly the test's verdict on that matrix (`False` ⇒ the input was restored). -/
+theorem apply_jitter_spec (isPsd : List (List α) → Bool) (draws : List (List α)) (G : List (List α))
+    (n : Nat) (hG : Rect n n G) (lo hi : α) (hlo : 0 ≤ lo)
+    (hdraw : ∀ u ∈ draws, u.length = n ∧ ∀ i < n, lo ≤ u.getD i 0 ∧ u.getD i 0 ≤ hi)
+    (hsym : ∀ i < n, ∀ j < n, entry G i j = entry G j i) (hpsd : ∀ v : Nat → α, 0 ≤ quad n G v) :
+    ∀ r, r = applyJitter isPsd draws G →
+    Rect n n r.1 ∧ r.2 = isPsd r.1 ∧
+    (∀ i < n, ∀ j < n, i ≠ j → entry r.1 i j = entry G i j) ∧
+    ((∀ i < n, entry r.1 i i = entry G i i) ∨
+      (r.2 = true ∧ ∃ u ∈ draws, ∀ i < n, entry r.1 i i = entry G i i + u.getD i 0 ∧
+        lo ≤ u.getD i 0 ∧ u.getD i 0 ≤ hi)) ∧
+    (∀ i < n, ∀ j < n, entry r.1 i j = entry r.1 j i) ∧ (∀ v : Nat → α, 0 ≤ quad n r.1 v) := by
+  intro r hdef
+  have same : ∀ r' : List (List α) × Bool, r' = (G, isPsd G) →
+      Rect n n r'.1 ∧ r'.2 = isPsd r'.1 ∧
+      (∀ i < n, ∀ j < n, i ≠ j → entry r'.1 i j = entry G i j) ∧
+      ((∀ i < n, entry r'.1 i i = entry G i i) ∨
+        (r'.2 = true ∧ ∃ u ∈ draws, ∀ i < n, entry r'.1 i i = entry G i i + u.getD i 0 ∧
+          lo ≤ u.getD i 0 ∧ u.getD i 0 ≤ hi)) ∧
+      (∀ i < n, ∀ j < n, entry r'.1 i j = entry r'.1 j i) ∧ (∀ v : Nat → α, 0 ≤ quad n r'.1 v) := by
+    intro r' h
+    rw [h]
+    exact ⟨hG, rfl, fun _ _ _ _ _ => rfl, Or.inl (fun _ _ => rfl), hsym, hpsd⟩
+  by_cases h0 : isPsd G = true
+  · exact same r (by rw [hdef]; simp [applyJitter, h0])
+  · have hf : isPsd G = false := by simpa using h0
+    have hr : r = jitterLoop isPsd G (diag G) draws := by rw [hdef]; simp [applyJitter, hf]
+    rcases jitterLoop_cases isPsd G (diag G) draws with ⟨h1, _⟩ | ⟨u, hu, h1, h2⟩
+    · exact same r (by rw [hr, h1, hf])
+    · obtain ⟨hul, hur⟩ := hdraw u hu
+      rw [hr, h1]
+      refine ⟨rect_setDiag G _ n hG, h2.symm, ?_, Or.inr ⟨rfl, u, hu, ?_⟩, ?_, ?_⟩
+      · intro i hi j hj hij
+        rw [entry_jittered G u n i j hG hul hi hj, if_neg (fun h => hij h.symm), add_zero]
+      · intro i hi
+        rw [entry_jittered G u n i i hG hul hi hi, if_pos rfl]
+        exact ⟨rfl, hur i hi⟩
+      · intro i hi j hj
+        rw [entry_jittered G u n i j hG hul hi hj, entry_jittered G u n j i hG hul hj hi, hsym i hi j hj]
+        by_cases hij : i = j
+        · subst hij; rfl
+        · rw [if_neg (fun h => hij h.symm), if_neg hij]
+      · intro v
+        rw [quad_jittered G u n hG hul v]
+        apply add_nonneg (hpsd v)
+        apply Finset.sum_nonneg
+        intro i hi
+        exact mul_nonneg (le_trans hlo (hur i (Finset.mem_range.mp hi)).1) (sq_nonneg _)
+
 /-! ### estimators that re-estimate the reference frequencies: permutations yes, sub-selection no -/
 
 /-- beyond the property: with `p_anc = None` the VanRaden matrix still commutes with every
@@ -670,6 +917,33 @@ theorem yang_def_real (ploidy n m : Nat) (p : List ℝ) (X : List (List ℝ)) (h
     ∃ G, yang ploidy m p X = .ok G ∧ Rect n n G ∧
       ∀ i < n, ∀ j < n, entry G i j = yangFormula ploidy m p X i j :=
   yang_def real_sqrt_contract ploidy n m p X hX hp hpl hm h01
+
+/-! ### kinship is exactly half in binary64 as well (rounding contract) -/
+
+/- FULL STATEMENT (false of IEEE arithmetic, see `kinship_half_underflow_counterexample`):
+   for every binary64 matrix the float kinship view `rnd(0.5·x)` equals `x/2` exactly.
+   It fails only when `x/2` is not representable, i.e. for non-zero entries below `2⁻¹⁰²¹` (half of a
+   subnormal with an odd significand); relationship matrices never have such entries, and the Spec oracle
+   checks the exact equality on every case. -/
+
+/-- **Rounded form of `kinship_half`.**  `mat_asformat("kinship")` computes `rnd(0.5 · x)` per entry.  For
+    every rounding `rnd` that leaves representable values unchanged and every matrix of binary64 entries that
+    are zero or at least `2⁻¹⁰²¹` in magnitude (no underflow), the float result is exactly `x / 2`. -/
+theorem kinship_half_rounded_partial (rnd : ℚ → ℚ) (hr : FixesBinary64 rnd) (G : List (List ℚ)) (n m : Nat)
+    (hG : Rect n m G) (hrep : ∀ i < n, ∀ j < m, IsBinary64 (entry G i j) ∧ halfSafe (entry G i j)) :
+    asFormatRnd rnd false G = G ∧ ∀ i < n, ∀ j < m, entry (asFormatRnd rnd true G) i j = entry G i j / 2 := by
+  refine ⟨rfl, ?_⟩
+  intro i hi j hj
+  show entry (mapMat (fun x => rnd (half * x)) G) i j = _
+  rw [entry_mapMat _ G n m i j hG hi hj]
+  exact rnd_half_exact rnd hr _ (hrep i hi j hj).1 (hrep i hi j hj).2
+
+/-- the hypothesis "no underflow" cannot be dropped: half of the smallest subnormal `2⁻¹⁰⁷⁴` rounds to 0
+    in IEEE arithmetic (Lean's own `Float`, evaluated by the kernel) -/
+theorem kinship_half_underflow_counterexample :
+    ((0.5 : Float) * Float.ofScientific 5 true 324 == 0.0) = true ∧
+      (Float.ofScientific 5 true 324 == 0.0) = false := by
+  decide +kernel
 
 /-! ### non-vacuity: concrete non-trivial inputs meet the hypotheses (evaluated by the kernel) -/
 section nonvacuity
@@ -721,8 +995,12 @@ example : gw 2 [1, 2] [0, 1] exX = [[1, 1, 0], [1, 1, 0], [0, 0, 8]] ∧
 -- sub-selection [2, 0] (an unsorted subset) on both sides of `molecular_select_commutes`
 example : (molecular 2 2 (Np.take [2, 0] exX)).toOption = some [[2, 1/2], [1/2, 3/2]] ∧
     ((molecular 2 2 exX).map (selectSq [2, 0])).toOption = some [[2, 1/2], [1/2, 3/2]] ∧
-    (Labels.select [2, 0] ⟨some ["a", "b", "c"], some [2, 1, 2]⟩) = ⟨some ["c", "a"], some [2, 2]⟩ := by
+    (Labels.select [2, 0] ⟨some ["a", "b", "c"], some [2, 1, 2], none⟩) = ⟨some ["c", "a"], some [2, 2], none⟩ := by
   decide +kernel
+-- a grouped source for `group_metadata_carried`: groups 1,1,2 with metadata name [1,2], stix [0,2], spix [2,3], len [2,1]
+example : (fromGmat (α := ℚ) ⟨some ["a", "b", "c"], some [1, 1, 2], some ⟨[1, 2], [0, 2], [2, 3], [2, 1]⟩⟩
+      (molecular 2 2 exX)).toOption.map (·.lab.grpMeta)
+    = some (some ⟨[1, 2], [0, 2], [2, 3], [2, 1]⟩) := by decide +kernel
 -- a permutation for `vanraden_estimated_perm_commutes`
 example : ([2, 0, 1] : List Nat).Perm (List.range exX.length) := by decide
 -- summaries
@@ -739,6 +1017,35 @@ example : IsRightInverse 2 ([[2, 1], [1, 2]] : List (List ℚ)) [[2/3, -1/3], [-
   interval_cases i <;> interval_cases j <;> simp [Finset.sum_range_succ, entry] <;> norm_num
 example : ∀ i < 2, ∀ j < 2, entry ([[2, 1], [1, 2]] : List (List ℚ)) i j = entry [[2, 1], [1, 2]] j i := by
   decide +kernel
+
+-- `inverse_sound` / `min_inbreeding_is_min`: G = [[2,1],[1,2]] is 2×2, symmetric (above) and positive
+-- semidefinite (vᵀGv = a² + b² + (a+b)²); the model returns 3/2 (coancestry) and 3/4 (kinship)
+example : Rect 2 2 ([[2, 1], [1, 2]] : List (List ℚ)) := ⟨rfl, by decide⟩
+example : ∀ v : Nat → ℚ, 0 ≤ quad 2 ([[2, 1], [1, 2]] : List (List ℚ)) v := by
+  intro v
+  simp only [quad, Finset.sum_range_succ, Finset.sum_range_zero, entry]
+  norm_num
+  nlinarith [sq_nonneg (v 0), sq_nonneg (v 1), sq_nonneg (v 0 + v 1)]
+-- per-axis summaries
+example : maxRows exX = some [2, 2, 0] ∧ minRows exX = some [1, 1, 0] ∧
+    maxCols ([[3/2, 1/2], [1/4, 2]] : List (List ℚ)) = some [3/2, 2] ∧
+    minCols ([[3/2, 1/2], [1/4, 2]] : List (List ℚ)) = some [1/4, 1/2] ∧
+    meanRows ([[3/2, 1/2], [1/4, 2]] : List (List ℚ)) = [1, 9/8] ∧
+    meanCols ([[3/2, 1/2], [1/4, 2]] : List (List ℚ)) = [7/8, 5/4] := by decide +kernel
+-- `apply_jitter_spec`: a singular PSD matrix, a test that wants the first diagonal entry ≥ 3/2, two draws
+-- in [1/4, 3/4]: the first fails the test, the second is kept; with no draw left the input is restored
+example : applyJitter (fun M => decide ((3/2 : ℚ) ≤ entry M 0 0)) [[1/4, 1/2], [1/2, 3/4]] [[1, 1], [1, 1]]
+      = ([[3/2, 1], [1, 7/4]], true) ∧
+    applyJitter (fun M => decide ((3/2 : ℚ) ≤ entry M 0 0)) [[1/4, 1/2]] [[1, 1], [1, 1]]
+      = ([[1, 1], [1, 1]], false) := by decide +kernel
+example : ∀ u ∈ ([[1/4, 1/2], [1/2, 3/4]] : List (List ℚ)),
+    u.length = 2 ∧ ∀ i < 2, (1/4 : ℚ) ≤ u.getD i 0 ∧ u.getD i 0 ≤ 3/4 := by decide +kernel
+-- `kinship_half_rounded_partial`: 3/2 = 3·2⁻¹ is a binary64 number of ordinary size; the identity is a rounding
+example : IsBinary64 (3/2) ∧ halfSafe (3/2) ∧ FixesBinary64 id := by
+  refine ⟨⟨3, -1, by norm_num, by norm_num, by norm_num, by norm_num⟩, Or.inr ?_, fun _ _ => rfl⟩
+  have h1 : (2 : ℚ) ^ (-1021 : ℤ) ≤ 1 := zpow_le_one_of_nonpos₀ (by norm_num) (by norm_num)
+  have h2 : |(3 / 2 : ℚ)| = 3 / 2 := abs_of_pos (by norm_num)
+  rw [h2]; linarith
 
 end nonvacuity
 
